@@ -31,7 +31,13 @@ func serverDecorator(p *core.Prog) *ssa.Function {
 func calleeOrigins(call *ssa.Call) []ssa.Value {
 	var out []ssa.Value
 	for _, o := range core.Origins(call.Call.Value) {
-		out = append(out, core.ResolveFree(o))
+		r := core.ResolveFree(o)
+		if r != o {
+			// bound in the enclosing function (or at a factory's only call): what was bound there
+			out = append(out, core.Origins(r)...)
+			continue
+		}
+		out = append(out, r)
 	}
 	return out
 }
